@@ -678,3 +678,46 @@ def optional_field_guarded(ctx, modnames: Iterable[str], field: str = "_user_val
                             f"(e.g. after unset_value() / a reset): `{ast.unparse(n)[:50]}` raises KeyError / TypeError", f.loc(n))
                 else:
                     ctx.bad(construct, f"`{ast.unparse(tgt)}` may be None here (guards: {sorted(gs)[:4]})", f.loc(n))
+
+
+# --------------------------------------------------------------------------- generated text does not depend on hashing
+def no_unordered_iteration(ctx, modnames: Iterable[str], why: str):
+    """No method iterates a set-valued attribute of its own object directly (`for x in self.<set>`): set order follows
+    string hashing and differs from run to run, and whatever is printed, logged or serialised in that loop comes out in
+    another order each time. Iteration goes through sorted(...). A set attribute is one that some method of the class
+    binds to `set()`, a set display / comprehension, or annotates as Set[...]."""
+    repo = ctx.repo
+    for m in modnames:
+        if m not in repo.modules:
+            continue
+        for cq, cls in sorted(repo.classes.items()):
+            if not cq.startswith(m + ":"):
+                continue
+            set_attrs: Set[str] = set()
+            for n in ast.walk(cls):
+                tgt, val, ann = None, None, None
+                if isinstance(n, ast.Assign) and len(n.targets) == 1:
+                    tgt, val = n.targets[0], n.value
+                elif isinstance(n, ast.AnnAssign):
+                    tgt, val, ann = n.target, n.value, n.annotation
+                if isinstance(tgt, ast.Attribute) and isinstance(tgt.value, ast.Name) and tgt.value.id == "self":
+                    is_set = (isinstance(val, ast.Call) and isinstance(val.func, ast.Name) and val.func.id in ("set", "frozenset")) or isinstance(val, (ast.Set, ast.SetComp)) \
+                        or (ann is not None and ast.unparse(ann).lstrip('"\'').startswith(("Set[", "set[", "typing.Set[", "FrozenSet[")))
+                    if is_set:
+                        set_attrs.add(tgt.attr)
+            if not set_attrs:
+                continue
+            for meth in [x for x in cls.body if isinstance(x, (ast.FunctionDef, ast.AsyncFunctionDef))]:
+                for lp in ast.walk(meth):
+                    its = []
+                    if isinstance(lp, ast.For):
+                        its = [lp.iter]
+                    elif isinstance(lp, (ast.ListComp, ast.GeneratorExp, ast.DictComp)):
+                        its = [g.iter for g in lp.generators]
+                    for it in its:
+                        if isinstance(it, ast.Attribute) and isinstance(it.value, ast.Name) and it.value.id == "self" and it.attr in set_attrs:
+                            construct = f"{cq.split(':')[1]}.{meth.name}/iteration over the set self.{it.attr} is ordered"
+                            ctx.bad(construct, f"`for ... in self.{it.attr}` follows hash order: {why}", f"{repo.modules[m].relpath}:{it.lineno}")
+                        elif isinstance(it, ast.Call) and isinstance(it.func, ast.Name) and it.func.id == "sorted" and it.args and isinstance(it.args[0], ast.Attribute) \
+                                and isinstance(it.args[0].value, ast.Name) and it.args[0].value.id == "self" and it.args[0].attr in set_attrs:
+                            ctx.ok(f"{cq.split(':')[1]}.{meth.name}/iteration over the set self.{it.args[0].attr} is ordered", f"{repo.modules[m].relpath}:{it.lineno}", nontrivial=False)
